@@ -501,3 +501,8 @@ mod tests {
         )
     }
 }
+
+#[cfg(kani)]
+pub(crate) mod verif {
+    include!(concat!(env!("LIBP2P_VERIF"), "/hooks/allow_block_list_lib.rs"));
+}
